@@ -609,6 +609,13 @@ pub fn jobs(pn: u32, tier: Tier) -> Vec<Job> {
                 v.push(job(&format!("map-{}-big-prefix", coll), random(ord_clear_cases_sized(id, "map", coll, vec!["u64", "string"], vec![300, 3000], 150..=600), n(120, 3_000)), rule.clone(), &[]));
                 v.push(job(&format!("set-{}-big-prefix", coll), random(ord_clear_cases_sized(id, "set", coll, vec!["u64", "string"], vec![300, 3000], 150..=600), n(120, 3_000)), rule.clone(), &[]));
             }
+            // deterministic: big, a few removals, clear, refill beyond / below the former size
+            for fam in ["map", "set"] {
+                let cases: Vec<Case> = ord_deep_cases(id, fam, "u64", !q).into_iter().filter(|c| c.ops.iter().any(|o| o.kind == O_CLEAR)).collect();
+                v.push(job(&format!("{}-tree-big-clear-refill", fam), JobKind::Fixed { cases, stop_on_first: false }, Rule::any("a structure of >=4096 entries cleared and refilled", &["stored_ge_4096"]), &["stored_ge_65536"]));
+            }
+            let cases: Vec<Case> = key_deep_cases(id, !q, true, true).into_iter().filter(|c| c.ops.iter().any(|o| o.kind == K_CLEAR)).collect();
+            v.push(job("key-tree-big-clear-refill", JobKind::Fixed { cases, stop_on_first: false }, Rule::any("a structure of >=4096 entries cleared and refilled", &["stored_ge_4096"]), &["stored_ge_65536"]));
             for coll in ["tree", "list"] {
                 let hr = Rule::all("a structure of >=4096 entries cleared, then >=5 twin observations", &["stored_ge_4096", "twin_obs_ge_5"]);
                 v.push(job(&format!("key-{}-huge", coll), random(key_huge_cases(id, coll, [30, 10, 10, 10, 14, 16, 0, 2], 140_000, true), n(2, 40)), hr.clone(), &["stored_ge_4096"]));
@@ -938,6 +945,24 @@ fn ord_deep_cases(prop: &str, family: &str, val: &str, thorough: bool) -> Vec<Ca
             v.push(c);
         }
     }
+    // a big structure with a few early removals, cleared and refilled beyond its former size, used on
+    for (k, (n1, n2, order)) in [(70_000i64, 140_000i64, 0i64), (70_000, 70_000, 2), (5_000, 20_000, 1), (140_000, 66_000, 2)].iter().enumerate() {
+        let mut c = Case::new(prop, family);
+        c.set("coll", "tree").set("val", if k == 1 { "string" } else { val }).set("cap", if k % 2 == 0 { 8 } else { 0 }).set("U", 400_000).set("snap", 0).set("dense", 0);
+        c.ops.push(RawOp::new(O_BULK, &[*n1, *order]));
+        for sel in [0i64, 3, 100, n1 / 2] {
+            c.ops.push(RawOp::new(O_DEL, &[sel, 1]));
+        }
+        c.ops.push(RawOp::new(O_HDEL, &[40]));
+        c.ops.push(RawOp::new(O_CLEAR, &[]));
+        c.ops.push(RawOp::new(O_BULK, &[*n2, *order]));
+        for sel in [0i64, n2 / 2, n2 - 1, 7, n2 / 3, n2 / 5] {
+            c.ops.push(RawOp::new(O_DEL, &[sel, 1]));
+            c.ops.push(RawOp::new(O_INS, &[sel + 1]));
+        }
+        c.ops.push(RawOp::new(O_HDEL, &[n2 / 4]));
+        v.push(c);
+    }
     v
 }
 
@@ -965,6 +990,27 @@ fn key_deep_cases(prop: &str, thorough: bool, descending: bool, export: bool) ->
                 v.push(c);
             }
         }
+    }
+    // big, cleared, refilled (bigger / smaller), queried, exported
+    for (k, (n1, n2, order)) in [(70_000i64, 140_000i64, 0i64), (70_000, 70_000, 2), (5_000, 20_000, 1), (140_000, 66_000, 2)].iter().enumerate() {
+        let mut c = Case::new(prop, "key");
+        c.set("coll", "tree").set("cap", if k % 2 == 0 { 8 } else { 0 }).set("U", 8).set("snap", 0);
+        c.ops.push(RawOp::new(K_BULK, &[*n1, *order, 2]));
+        c.ops.push(RawOp::new(K_ADV, &[1]));
+        for pr in [0i64, n1 / 2 + 1, n1 + 1] {
+            c.ops.push(RawOp::new(K_FLE, &[pr]));
+        }
+        c.ops.push(RawOp::new(K_CLEAR, &[0]));
+        c.ops.push(RawOp::new(K_BULK, &[*n2, *order, 1]));
+        c.ops.push(RawOp::new(K_ADV, &[1]));
+        for pr in [0i64, n2 / 2 + 1, n2 + 1, 5] {
+            c.ops.push(RawOp::new(K_FLE, &[pr]));
+            c.ops.push(RawOp::new(K_GET, &[pr + 1]));
+        }
+        if export {
+            c.ops.push(RawOp::new(K_EXPORT, &[0]));
+        }
+        v.push(c);
     }
     v
 }
